@@ -189,6 +189,54 @@ Section Votes.
   Qed.
 End Votes.
 
+(* ---------------------------------------------------------------- cBOSS weights *)
+
+(* the weight ContractableBOSS.fit gives a member (as regenerated) is positive for EVERY train
+   accuracy - also 0, where accuracy^4 alone would leave the ensemble without any vote mass
+   (F-C17-2, repaired) *)
+Lemma gen_cboss_weight_pos acc : 0 < gen_cboss_weight acc.
+Proof.
+  unfold gen_cboss_weight. cbv zeta.
+  destruct (Qeq_bool (acc * acc * acc * acc) 0) eqn:E; [reflexivity|].
+  apply Qeq_bool_neq in E.
+  assert (H : 0 <= acc * acc * acc * acc).
+  { assert (E2 : acc * acc * acc * acc == (acc * acc) * (acc * acc)) by ring.
+    rewrite E2. apply sq_nonneg. }
+  destruct (Qlt_le_dec 0 (acc * acc * acc * acc)) as [Hlt|Hle]; [exact Hlt|].
+  exfalso. apply E. lra.
+Qed.
+
+Lemma total_weight_pos {L} (vs : list (L * Q)) :
+  vs <> [] -> Forall (fun v => 0 < snd v) vs -> 0 < total_weight vs.
+Proof.
+  unfold total_weight. intros Hne H. destruct vs as [|v vs]; [congruence|].
+  inversion H as [|? ? Hv Hvs]; subst. cbn [map]. rewrite qsum_cons.
+  assert (0 <= qsum (map snd vs)).
+  { apply qsum_nonneg. apply Forall_forall. intros p Hp. apply in_map_iff in Hp.
+    destruct Hp as (u & <- & Hu). rewrite Forall_forall in Hvs. specialize (Hvs u Hu). lra. }
+  lra.
+Qed.
+
+(* hence a fitted ContractableBOSS with at least one member returns a probability row whatever its
+   members' train accuracies and votes are *)
+Lemma cboss_row_is_distribution {L} (eqb : L -> L -> bool) :
+  (forall a b, eqb a b = true <-> a = b) ->
+  forall classes (members : list (L * Q)),      (* (the member's vote, its train accuracy) *)
+  members <> [] -> NoDup classes -> (forall m, In m members -> In (fst m) classes) ->
+  is_dist (length classes)
+    (vote_row eqb classes (map (fun m => (fst m, gen_cboss_weight (snd m))) members)).
+Proof.
+  intros Hspec classes members Hne Hnd Hin.
+  set (vs := map (fun m => (fst m, gen_cboss_weight (snd m))) members).
+  assert (Hpos : Forall (fun v : L * Q => 0 < snd v) vs).
+  { apply Forall_forall. intros v Hv. apply in_map_iff in Hv. destruct Hv as (m & <- & _).
+    cbn [snd]. apply gen_cboss_weight_pos. }
+  apply (votes_normalised_is_distribution L eqb Hspec); [exact Hnd| | |].
+  - intros v Hv. apply in_map_iff in Hv. destruct Hv as (m & <- & Hm). cbn [fst]. apply Hin. exact Hm.
+  - eapply Forall_impl; [|exact Hpos]. intros v Hv. cbn beta in Hv. lra.
+  - apply total_weight_pos; [|exact Hpos]. unfold vs. destruct members; [congruence|discriminate].
+Qed.
+
 (* ---------------------------------------------------------------- forest features, intervals *)
 
 Lemma gen_interval_features_is_model x iv : gen_interval_features x iv = interval_features x iv.
